@@ -15,6 +15,17 @@ CLAIMED = {
          "Non-interference as a read effect: no non-asserting, container or meta field of Schema is read on any path reachable from Validate; the keyword decoder is case-exact by construction; unknown keywords cannot be rejected by type. Not an observed verdict equality.", "4/C18"),
 }
 
+CLAIMED.update({
+ "C02": ("finite string-partition abstract evaluation of the version predicate and draft detector; dominance of the version gate; reachability of field reads before the draft-07 $ref short-circuit; access-path provenance of inherited $schema and draft; dominating draft guards of anchor registration",
+         "Structure of draft selection decided for all inputs: the set of supported $schema values, refusal before evaluation, the $ref short-circuit and $id-beside-$ref rule under draft-07, root provenance of the inherited draft, draft gating of anchors. Not the draft-07 verdict of concrete cases.", "4/C02"),
+ "C05": ("type-level recomputation of the marshal and unmarshal field tables (encoding/json field resolution re-implemented over go/types) and comparison with the Schema struct; guard and post-dominance rules on the splice helpers",
+         "Agreement of the writer's and the reader's keyword tables for every field, preservation of significant empty containers, exact boolean folding, unconditional purge of known names from Extra, integer keyword shadowing, const-null handling, exact JSON-name set. Not byte identity or value fidelity.", "4/C05"),
+ "C17": ("type-level registry completeness; dominating guards in the pointer field lookup; constant tables of the escape replacers; guard analysis of the pointer walker (checked assertion, validity tests, both index bounds)",
+         "Every schema-bearing field is registered and addressable, ambiguous JSON names are special-cased before the last-writer-wins map, escape tables are RFC 6901's, failed lookups become errors. Not which subschema a concrete pointer selects.", "4/C17"),
+ "C20": ("type-level registry completeness; sibling agreement on the three shapes across traversals; control-dependence of the clone write-backs; allocation-site freshness of cloned containers and elements",
+         "The clone loop is total over schema-bearing fields, writes back only fresh containers filled with recursive clones, and the structure check rejects a shared Schema object. Not observed equality of marshaled output.", "4/C20"),
+})
+
 NOT_YET = "static clauses designed in DESIGN.md section 4 but the rule is not built yet in this session"
 
 def main():
